@@ -213,6 +213,9 @@ func (g *dgen) bodyType(depth int) *spec.Attr {
 		}
 		a := &spec.Attr{Type: &spec.Type{Kind: spec.Map, Key: key, Elem: el}}
 		a.Val = g.validation(spec.Map, LocBody)
+		if key.Val != nil {
+			a.Val = nil // constrained keys and a minimum number of entries together can leave too few admissible keys
+		}
 		g.feat("type:map")
 		return a
 	case 3: // user type (existing or new)
